@@ -126,7 +126,8 @@ func streamBuildorder(g *core.G) {
 				binOwner[bn] = j
 			}
 		}
-		arch := r.Pick([]string{"amd64", "i386", "armhf"})
+		arch := r.Pick([]string{"amd64", "i386", "armhf", "musl-linux-amd64", "uclibc-linux-armel", "gnu-linux-arm64"})
+		cpu := arch[strings.LastIndex(arch, "-")+1:]
 		cyclicWanted := r.Chance(1, 4)
 		needs := map[[2]int]bool{} // (from, to): to needs from
 		for j := range srcs {
@@ -146,7 +147,12 @@ func streamBuildorder(g *core.G) {
 					bn := srcs[t].bins[r.Intn(len(srcs[t].bins))]
 					text := bn
 					applicable := true
-					switch r.Intn(7) {
+					switch r.Intn(10) {
+					case 6: // wildcards: every build architecture here is a Linux one
+						text += " [" + r.Pick([]string{"linux-any", "any", "any-" + cpu, "linux-any i386", "any-any-" + cpu}) + "]"
+					case 7:
+						text += " [" + r.Pick([]string{"!linux-any", "kfreebsd-any", "hurd-any", "any-sparc", "!any", "!any-" + cpu}) + "]"
+						applicable = false
 					case 0:
 						text += " [" + arch + "]"
 					case 1:
@@ -241,6 +247,14 @@ func streamBuildorder(g *core.G) {
 				b.WriteString("Binary: " + strings.Join(s.bins, ",\n ") + "\n")
 			}
 			b.WriteString("Architecture: any\nVersion: 1.0-1\nMaintainer: A <a@b>\n")
+			if r.Chance(1, 3) {
+				// Package-List as dpkg-source writes it: one line per binary with its type, section,
+				// priority and architectures (arch:all and restricted ones included)
+				b.WriteString("Package-List:\n")
+				for _, bn := range s.bins {
+					b.WriteString(" " + bn + " deb " + r.Pick([]string{"libs", "devel", "doc"}) + " optional arch=" + r.Pick([]string{"any", "all", "linux-any", "amd64,i386", "all", "any-" + cpu, "sparc"}) + r.Pick([]string{"", " profile=!stage1", " essential=yes"}) + "\n")
+				}
+			}
 			for f, name := range []string{"Build-Depends", "Build-Depends-Arch", "Build-Depends-Indep"} {
 				if len(s.deps[f]) > 0 {
 					if r.Chance(1, 20) {
@@ -284,7 +298,7 @@ func init() {
 		ID: "C19", PropsModule: "GoDebian.Props.C19",
 		Facts: []string{"fingerprint:control.OrderDSCForBuild", "fingerprint:control.ParseDsc", "fingerprint:dependency.Dependency.GetPossibilities", "fingerprint:control.decodeStructValueSlice"},
 		Streams: []core.Stream{{Name: "buildorder", Gen: streamBuildorder,
-			Domain: "random build-dependency graphs over 1-12 sources with 1-4 binaries each, acyclic (3/4) and possibly cyclic (1/4), relations of 1-3 alternatives with architecture restrictions ([arch], [!arch], [other]), multiarch qualifiers (:native, :any, :<this arch>, :<other arch>), build profiles, version clauses, substvars and packages no source provides, spread over Build-Depends / -Arch / -Indep, rendered as multi-binary .dsc text (single-line and folded Binary and dependency fields) in shuffled order and parsed by the real ParseDsc; model vs OrderDSCForBuild (three runs each); law-order: graph-level oracle (permutation, every needed source earlier, cycle <=> error)"}},
+			Domain: "random build-dependency graphs over 1-12 sources with 1-4 binaries each (with Package-List fields incl. arch=all and restricted binaries), build architectures incl. non-GNU ABIs (musl-linux-amd64, uclibc-linux-armel), wildcard restrictions (linux-any, any-<cpu>, !linux-any, kfreebsd-any), acyclic (3/4) and possibly cyclic (1/4), relations of 1-3 alternatives with architecture restrictions ([arch], [!arch], [other]), multiarch qualifiers (:native, :any, :<this arch>, :<other arch>), build profiles, version clauses, substvars and packages no source provides, spread over Build-Depends / -Arch / -Indep, rendered as multi-binary .dsc text (single-line and folded Binary and dependency fields) in shuffled order and parsed by the real ParseDsc; model vs OrderDSCForBuild (three runs each); law-order: graph-level oracle (permutation, every needed source earlier, cycle <=> error)"}},
 		Impl: buildOrderImpl, TrustedBase: tb,
 		Readable: func(op string, a []string) string {
 			return op + " arch=" + core.MustUnHex(a[0]) + " " + clipStr(strings.Join(a[1:], " "), 160)
